@@ -78,6 +78,10 @@ theorem names_unique : strictlyIncreasing (decoders.map (·.key)) = true := by d
 /-- Whenever `X_nocancel` is registered, `X` is registered too. -/
 theorem nocancel_has_base : decoders.all twinOK = true := by decide +kernel
 
+/-- Every `_nocancel` decoder was translated (so the next theorem speaks about all of them; a twin whose
+    handler leaves the translatable subset makes this fail and triggers the search). -/
+theorem twins_translated : decoders.all (fun d => !hasSuffix d || d.supported) = true := by decide +kernel
+
 /-- … and by the same logic. -/
 theorem twins_same_logic : decoders.all sameLogic = true := by decide +kernel
 
